@@ -82,12 +82,8 @@ type KnownFinding struct {
 // LoadKnown reads known_findings.jsonl; only status=="known" entries suppress.
 func LoadKnown(prop string) map[string]KnownFinding {
 	m := map[string]KnownFinding{}
+	// the committed list is the only source: nothing is added to it at run time
 	files := []string{filepath.Join(VerifRoot(), "known_findings.jsonl")}
-	// Development aid only: while a worker is being written, proposed entries can be tried
-	// out from a scratch file without touching the committed list.
-	if x := os.Getenv("VERIF_KNOWN_EXTRA"); x != "" {
-		files = append(files, x)
-	}
 	for _, fn := range files {
 		f, err := os.Open(fn)
 		if err != nil {
